@@ -376,6 +376,24 @@ func drawDecls(r *Rng, cfg SpecConfig, p *PkgSpec, pi int) {
 			}
 		}
 	}
+	// ... and so does one declared through an alias of the POINTER type (type P = *T; func (P) M()): a method
+	// of T with a pointer receiver
+	if r.P(cfg.PMethods * 0.5) {
+		var cands []*Decl
+		for _, t := range typeDecls {
+			if t.Kind != "iface" && t.Kind != "generic" && !t.Broken {
+				cands = append(cands, t)
+			}
+		}
+		if len(cands) > 0 {
+			t := Pick(r, cands)
+			nm := name()
+			fl := file()
+			fl.Decls = append(fl.Decls, &Decl{Kind: "alias", Name: nm, Target: "*" + t.Name, Tags: drawTags(r, cfg.GenNames, cfg.PDeclTags, cfg.AllowFalse)})
+			fnCount++
+			fl.Decls = append(fl.Decls, &Decl{Kind: "method", Name: fmt.Sprintf("ViaPtrAlias%d", fnCount), Target: nm})
+		}
+	}
 	// constants and functions
 	for k := r.Intn(3); k > 0; k-- {
 		fnCount++
